@@ -102,6 +102,9 @@ Fixpoint sexp_val (fuel : nat) (x : sexp) : option gval :=
         else if atom_is t "strptr" then option_map (fun b => GStringer (Some b)) (atom_bytes v)
         else if atom_is t "jnum" then option_map (fun b => GStringer (Some b)) (atom_bytes v)
         else if atom_is t "strslice" then option_map (fun b => GStringer (Some b)) (atom_bytes v)
+        else if atom_is t "strver" then option_map (fun b => GStringer (Some b)) (atom_bytes v)
+        else if atom_is t "strverptr" then option_map (fun b => GStringer (Some b)) (atom_bytes v)
+        else if atom_is t "strreent" then option_map (fun b => GStringer (Some b)) (atom_bytes v)
         else if atom_is t "o" then option_map GOther (atom_N v)
         else None
     | SList (Atom t :: kvs) =>
